@@ -25,7 +25,8 @@ LEVEL_TEXT = ("Placements of cancel / matching response / deadline on a virtual 
               "10 ms) x progress streams x raising callbacks are executed against the real send_message; "
               "completion time, cancelled notifications and callback invocations are compared with a "
               "timeline model. Held = on the schedules explored."
-              " Also params objects with a history (reused for a second request, own _meta, own progressToken).")
+              " Also params objects with a history (reused for a second request, own _meta, own progressToken)."
+              ' Also one token governing several in-flight and later requests.')
 LEVEL_NOTE = ("Trusted: virtual-time loop; the oracle accepts either neighbour inside ambiguous windows "
               "(simultaneous events, response within one poll interval after cancel).")
 RULE = ("schedule = (timeout, cancel time|none|pre, response time|none, traffic pattern, progress stream, "
